@@ -57,13 +57,13 @@ def one_case(rep, work, k, rule, text, lib):
     yaml = json.dumps(rule)
     tree = {'sgconfig.yml': 'ruleDirs: [rules]\ntestConfigs:\n  - testDir: tests\n', 'rules/r.yml': yaml, 'a.js': text,
             'tests/r-test.yml': json.dumps({'id': rule['id'], 'valid': [], 'invalid': [text]})}
-    if k % 2 == 1:
+    if (k // len(FIXES)) % 2 == 1:
         # a second rule WITHOUT fix whose findings enclose the fixable ones (language server: diagnostics without
         # fix data sit between the fixable ones when fix-all walks them)
         tree['rules/nofix.yml'] = json.dumps({'id': 'nofix', 'language': 'JavaScript', 'rule': {'any': [{'kind': 'expression_statement'}, {'kind': 'lexical_declaration'}, {'kind': 'call_expression'}]}, 'message': 'no fix here'})
     common.write_tree(d, tree)
     data = text.encode('utf-8')
-    replay = {'monitor': 'py:c08', 'rule': rule, 'text': text, 'with_nofix_rule': k % 2 == 1}
+    replay = {'monitor': 'py:c08', 'rule': rule, 'text': text, 'with_nofix_rule': (k // len(FIXES)) % 2 == 1}
     rep['evaluations'] += 1
     if not isinstance(lib, list):
         rep['notes'].append(f'library gave {str(lib)[:80]}')
@@ -79,8 +79,15 @@ def one_case(rep, work, k, rule, text, lib):
         # Only a mismatch that this explains (every offered range is the unexpanded node range) gets that signature.
         if not expanded:
             return 'plain'
-        node_set = set(nodes)
-        return 'expanded' if got and all((s, e) in node_set for s, e, _ in got) else 'expanded-other'
+        # diagnostics / quick-fixes: exactly one per match, on the node range; fix-all: the non-overlapping
+        # selection of those in document order.  Anything else (edits missing, other ranges) is not that finding.
+        offered = sorted((s, e) for s, e, _ in got)
+        every = sorted(nodes)
+        chosen, last = [], -1
+        for s, e in every:
+            if s >= last:
+                chosen.append((s, e)); last = e
+        return 'expanded' if got and offered in (every, chosen) else 'expanded-other'
     # 2. scan --json
     rc, out, err = sg(['scan', '-r', 'rules/r.yml', '--json=stream', 'a.js'], cwd=d)
     try:
@@ -238,7 +245,7 @@ def run(ctx):
 def replay(ctx, r):
     rep = new_report(); rep['_nt'] = set()
     lib = lib_edits([{'lang': 'JavaScript', 'source': r['text'], 'rule': json.dumps(r['rule'])}])[0]
-    one_case(rep, ctx.workdir(), 1 if r.get('with_nofix_rule') else 0, r['rule'], r['text'], lib)
+    one_case(rep, ctx.workdir(), len(FIXES) if r.get('with_nofix_rule') else 0, r['rule'], r['text'], lib)
     rep.pop('_nt')
     ctx.cleanup()
     return rep
